@@ -12,43 +12,44 @@ open Neumann.Ckpt
 /-- create table, insert, checkpoint, rollback ⇒ the table cannot be read any more -/
 theorem rollback_loses_tables_witness : ¬ RollbackExact := by
   intro h
-  have h' := (h probes0 [.rcreate 0, .rins 0 1 2] [] 100 []
-    (step (run (step (run {} [.rcreate 0, .rins 0 1 2]) (.ckpt 100 [])).1 []) (.rollback 0)).1 (by decide)).1
+  have h' := (h probes0 [.rcreate 0, .rins 0 1 2] [] 100 [] 1000 0 []
+    (step (run (step (run {} [.rcreate 0, .rins 0 1 2]) (.ckpt 100 [] 1000)).1 []) (.rollback 0 [])).1
+    (by decide) (by decide)).1
   revert h'
   decide
 
 /-- the table witness on the concrete run: scan answered rows at the checkpoint, a storage error after -/
 example :
     let d0 := run {} [.rcreate 0, .rins 0 1 2]
-    let d3 := run d0 [.ckpt 100 [], .rollback 0]
+    let d3 := run d0 [.ckpt 100 [] 1000, .rollback 0 []]
     qScan d0 0 = .ok [(1, 1, 2)] ∧ qScan d3 0 = .error .storage ∧ tables d3 = [0] := by decide
 
 /-- graph: create a node, checkpoint, delete it, roll back ⇒ `all_nodes` shows it again but the
     engine's in-memory label index (not reset by the rollback) no longer finds it -/
 theorem rollback_stale_label_index_witness :
     let d0 := run {} [.gnode 1]
-    let d3 := run d0 [.ckpt 100 [], .gdeln 1, .rollback 0]
+    let d3 := run d0 [.ckpt 100 [] 1000, .gdeln 1, .rollback 0 []]
     qNodes d3 = qNodes d0 ∧ qByLabel d0 1 = [1] ∧ qByLabel d3 1 = [] := by decide
 
 /-- vector: the HNSW cache built after the checkpoint survives the rollback and answers with a key
     that no longer exists -/
 theorem rollback_stale_hnsw_witness :
     let d0 := run {} [.vput 0 [1, 0, 0]]
-    let d3 := run d0 [.ckpt 100 [], .vput 1 [0, 1, 0], .vbuild, .rollback 0]
+    let d3 := run d0 [.ckpt 100 [] 1000, .vput 1 [0, 1, 0], .vbuild, .rollback 0 []]
     qEmbs d3 = qEmbs d0 ∧ qSearch d0 [1, 1, 1] = [0] ∧ qSearch d3 [1, 1, 1] = [0, 1] := by decide
 
 /-- the checkpoint records live in the store that is wiped: rolling back to c0 removes c0 itself and
     the newer c1, so neither can be rolled back to afterwards (no repeated cycles) -/
 theorem rollback_wipes_checkpoint_records_witness :
-    let d := run {} [.kput 0 0 1 none, .ckpt 100 [], .kput 0 0 2 none, .ckpt 101 []]
-    let d' := (step d (.rollback 0)).1
-    qCkpts d = [0, 1] ∧ (step d (.rollback 0)).2 = .ok ∧ qCkpts d' = [] ∧
-      (step d' (.rollback 0)).2 = .err .notFound ∧ (step d' (.rollback 1)).2 = .err .notFound := by
+    let d := run {} [.kput 0 0 1 none, .ckpt 100 [] 1000, .kput 0 0 2 none, .ckpt 101 [] 1001]
+    let d' := (step d (.rollback 0 [])).1
+    qCkpts d = [0, 1] ∧ (step d (.rollback 0 [])).2 = .ok ∧ qCkpts d' = [] ∧
+      (step d' (.rollback 0 [])).2 = .err .notFound ∧ (step d' (.rollback 1 [])).2 = .err .notFound := by
   decide
 
 /-- after the rollback a listed table rejects inserts (schema key restored, slab table gone) -/
 theorem writes_fail_after_rollback_witness :
-    let d3 := run {} [.rcreate 0, .rins 0 1 2, .ckpt 100 [], .rollback 0]
+    let d3 := run {} [.rcreate 0, .rins 0 1 2, .ckpt 100 [] 1000, .rollback 0 []]
     tables d3 = [0] ∧ (step d3 (.rins 0 5 5)).2 = .err .storage := by decide
 
 /-- What holds, for EVERY statement sequence before the checkpoint (unrestricted: it may contain
@@ -64,43 +65,31 @@ theorem writes_fail_after_rollback_witness :
     relational slab (`rel = []`: all rows gone, so table scans / index-path queries differ), the
     engine-side label index and HNSW cache, and the checkpoint records themselves (`cps` is the
     checkpointed list, so the checkpoint rolled back to and every later one are unlisted). -/
-theorem rollback_exact_partial (pre post : List Op) (ts : Nat) (ord : List Nat) (d3 : Db) :
+theorem rollback_exact_partial (pre post : List Op) (ts : Nat) (ord : List Nat) (nm x : Nat)
+    (o : List Nat) (d3 : Db) :
     let d0 := run {} pre
-    let d2 := run (step d0 (.ckpt ts ord)).1 post
-    step d2 (.rollback d0.nextCk) = (d3, .ok) →
+    let d2 := run (step d0 (.ckpt ts ord nm)).1 post
+    resolve d2 o x = some d0.nextCk → step d2 (.rollback x o) = (d3, .ok) →
       d3.st.md = d0.st.md ∧ d3.st.cache = d0.st.cache ∧ d3.st.rel = [] ∧ kvObs d3 = kvObs d0 ∧
         d3.st.cps = d0.st.cps ∧ WF d3.st := by
-  intro d0 d2 hstep
+  intro d0 d2 hr hstep
   have hinv : DbInv d0 := DbInv.init.run pre
-  simp only [step, doRollback] at hstep
-  cases hl : loadCk d2 d0.nextCk with
-  | none =>
-    rw [hl] at hstep
-    exact absurd (congrArg Prod.snd hstep) (by simp)
-  | some c =>
-    rw [hl] at hstep
-    have himg : c.img = d0.st := load_after d0 hinv ts ord post c hl
-    have hd3 : d3 = { d2 with st := Store.restoreFrom c.img d2.st } :=
-      (congrArg Prod.fst hstep).symm
-    have hf := restoreFrom_fields (img := c.img) (by rw [himg]; exact hinv.wf) d2.st
-    have hw := restoreFrom_wf c.img d2.st
-    have hst : d3.st = Store.restoreFrom c.img d2.st := by rw [hd3]
-    rw [himg] at hf hw hst
-    have hv := WF.view_eq (hst ▸ hw) hinv.wf (by rw [hst]; exact hf.1) (by rw [hst]; exact hf.2.1)
-    refine ⟨by rw [hst]; exact hf.1, by rw [hst]; exact hf.2.1, by rw [hst]; exact hf.2.2.1, ?_⟩
-    exact ⟨kvObs_congr d3 d0 (by rw [hst]; exact hf.1) hv.1 hv.2.1 hv.2.2,
-      by rw [hst]; exact hf.2.2.2, hst ▸ hw⟩
+  have h := rollback_core d0 d2 hinv.wf x o d3
+    (fun c hl => load_after d0 hinv ts ord nm post o x c hr hl) hstep
+  exact ⟨h.1, h.2.1, h.2.2.1, h.2.2.2.1, h.2.2.2.2.1, h.2.2.2.2.2.1⟩
 
 /-- non-vacuity: for a mixed sequence (tables, graph, vectors, raw keys with and without
     `_embedding`, an `_embedding` overwritten without one, an earlier checkpoint/rollback cycle)
     the rollback is accepted and the image is non-trivial, slab vectors included -/
 example :
     let pre : List Op := [.rcreate 0, .rins 0 1 2, .gnode 1, .gnode 2, .gedge 1 2, .vput 0 [1, 2, 3],
-      .kput 0 1 5 none, .kput 1 1 6 none, .kput 2 5 7 (some 3), .kput 2 6 8 (some 4), .ckpt 50 [],
-      .gdeln 2, .kput 2 6 9 none, .kput 2 7 1 (some 2), .rollback 0, .gnode 0, .kput 2 8 2 (some (-1))]
-    let post : List Op := [.gdeln 1, .vdel 0, .kput 2 5 1 (some 9), .kdel 2 6, .ckpt 70 [], .rdrop 0]
+      .kput 0 1 5 none, .kput 1 1 6 none, .kput 2 5 7 (some 3), .kput 2 6 8 (some 4), .ckpt 50 [] 1000,
+      .gdeln 2, .kput 2 6 9 none, .kput 2 7 1 (some 2), .rollback 0 [], .gnode 0, .kput 2 8 2 (some (-1))]
+    let post : List Op := [.gdeln 1, .vdel 0, .kput 2 5 1 (some 9), .kdel 2 6, .ckpt 70 [] 1002, .rdrop 0]
     let d0 := run {} pre
-    (step (run (step d0 (.ckpt 60 [])).1 post) (.rollback d0.nextCk)).2 = .ok ∧
+    let d2 := run (step d0 (.ckpt 60 [] 1005)).1 post
+    resolve d2 [] d0.nextCk = some d0.nextCk ∧ resolve d2 [] 1005 = some d0.nextCk ∧
+    (step d2 (.rollback d0.nextCk [])).2 = .ok ∧ (step d2 (.rollback 1005 [])).2 = .ok ∧
     (kvObs d0).nodes = [(1, 1), (2, 2), (3, 0)] ∧ (kvObs d0).embs = [(0, [1, 2, 3])] ∧
     (kvObs d0).raw = [(.emb 0, .vec [1, 2, 3]), (.plain 1, .raw (some 5) none), (.emb 5, .raw (some 7) (some 3)),
       (.emb 6, .raw (some 8) (some 4)), (.emb 8, .raw (some 2) (some (-1))),
@@ -117,21 +106,23 @@ example :
     the engine-side state (id counters keep their post-checkpoint values — harmless, ids stay
     unique; label index / HNSW cache stale — witnesses above), and databases with tables
     (`writes_fail_after_rollback_witness`). -/
-theorem usable_after_rollback_partial (pre post : List Op) (ts : Nat) (ord : List Nat) (d3 : Db) :
+theorem usable_after_rollback_partial (pre post : List Op) (ts : Nat) (ord : List Nat) (nm x : Nat)
+    (o : List Nat) (d3 : Db) :
     let d0 := run {} pre
-    let d2 := run (step d0 (.ckpt ts ord)).1 post
-    step d2 (.rollback d0.nextCk) = (d3, .ok) → d0.st.rel = [] →
+    let d2 := run (step d0 (.ckpt ts ord nm)).1 post
+    resolve d2 o x = some d0.nextCk → step d2 (.rollback x o) = (d3, .ok) → d0.st.rel = [] →
       d3.st.md = d0.st.md ∧ d3.st.cache = d0.st.cache ∧ d3.st.rel = d0.st.rel ∧
       d3.st.cps = d0.st.cps ∧ WF d3.st := by
-  intro d0 d2 hstep hrel
-  have h := rollback_exact_partial pre post ts ord d3 hstep
+  intro d0 d2 hr hstep hrel
+  have h := rollback_exact_partial pre post ts ord nm x o d3 hr hstep
   exact ⟨h.1, h.2.1, by rw [h.2.2.1, hrel], h.2.2.2.2.1, h.2.2.2.2.2⟩
 
 example :
     let pre : List Op := [.gnode 1, .vput 0 [1, 2, 3], .kput 1 1 6 none, .kput 2 4 1 (some 2)]
     let d0 := run {} pre
-    d0.st.rel = [] ∧
-    (step (run (step d0 (.ckpt 60 [])).1 [.gdeln 1]) (.rollback d0.nextCk)).2 = .ok := by decide
+    let d2 := run (step d0 (.ckpt 60 [] 1005)).1 [.gdeln 1]
+    d0.st.rel = [] ∧ resolve d2 [] d0.nextCk = some d0.nextCk ∧
+    (step d2 (.rollback d0.nextCk [])).2 = .ok := by decide
 
 /-- retention, for EVERY listing `L` (any order among equal timestamps) and EVERY count: what
     `enforce` keeps (`take max` of the stable newest-first sort) has `min max |L|` elements, together
@@ -157,33 +148,220 @@ theorem retention_tie_drops_newest_witness :
 example : retainIds 2 [] [(0, 5), (1, 7), (2, 6), (3, 7)] = [1, 3] := by decide
 
 /-- every checkpoint id that is listed after ANY statement sequence (unrestricted: retention at any
-    count and any tie order, rollbacks, `_embedding` writes, …) can be loaded — its blob is in the
-    archive — and `ROLLBACK` to it is accepted -/
-theorem retained_are_restorable (ops : List Op) (i : Nat) :
+    count and any tie order, rollbacks, manual deletes, duplicate names, `_embedding` writes, …) has
+    its blob in the archive, and `ROLLBACK TO <that id>` is accepted whatever the listing order; it
+    loads that very checkpoint provided no listed checkpoint carries the id string as its NAME
+    (`rollback_id_shadowed_by_name_witness` shows the proviso is needed) -/
+theorem retained_are_restorable (ops : List Op) (i : Nat) (o : List Nat) :
     alHas (run {} ops).st.cps i = true →
-    (∃ c, loadCk (run {} ops) i = some c ∧ c.id = i) ∧ (step (run {} ops) (.rollback i)).2 = .ok := by
+    (∃ c, blobOf (run {} ops) i = some c ∧ c.id = i) ∧ (step (run {} ops) (.rollback i o)).2 = .ok ∧
+    ((∀ j, alHas (run {} ops).st.cps j = true → nameOf (run {} ops) j ≠ some i) →
+      ∃ c, loadCk (run {} ops) o i = some c ∧ c.id = i) := by
   intro hl
   have hinv : DbInv (run {} ops) := DbInv.init.run ops
-  have hlt : i < (run {} ops).nextCk := hinv.cpsLt i hl
-  have hload : ∃ c, loadCk (run {} ops) i = some c ∧ c.id = i := by
-    unfold loadCk
-    rw [if_pos hl]
-    have hm : i ∈ (run {} ops).arch.map (·.id) := by rw [hinv.ids]; exact List.mem_range.mpr hlt
-    obtain ⟨c, hc, hci⟩ := List.mem_map.mp hm
-    cases hf : (run {} ops).arch.find? (fun x => decide (x.id = i)) with
+  have hblob := hinv.blobOf_some i (hinv.cpsLt i hl)
+  -- the id itself matches, so the target resolves to some listed checkpoint, whose blob exists
+  have hres : ∃ j, resolve (run {} ops) o i = some j := by
+    obtain ⟨p, hp, hpi⟩ := List.mem_map.mp ((alHas_iff _ _).mp hl)
+    have hin := mem_ckList o _ hinv.cpsNodup p hp
+    unfold resolve
+    cases hf : (ckList o (run {} ops).st.cps).find? (ckMatches (run {} ops) i) with
     | none =>
       rw [List.find?_eq_none] at hf
-      exact absurd (by simpa using hci) (hf c hc)
-    | some c' => exact ⟨c', rfl, by simpa using List.find?_some hf⟩
-  refine ⟨hload, ?_⟩
-  obtain ⟨c, hc, _⟩ := hload
-  simp only [step, doRollback, hc]
+      have := hf p hin
+      simp [ckMatches, hpi] at this
+    | some a => exact ⟨a.1, rfl⟩
+  refine ⟨hblob, ?_, ?_⟩
+  · obtain ⟨j, hj⟩ := hres
+    obtain ⟨c, hc, _⟩ := hinv.blobOf_some j (hinv.cpsLt j (resolve_live _ o i j hj))
+    simp only [step, doRollback, loadCk, hj, hc]
+  · intro hno
+    obtain ⟨c, hc, hci⟩ := hblob
+    exact ⟨c, by simp only [loadCk, hinv.resolve_id o i hl hno, hc], hci⟩
 
 /-- non-vacuity: retention at max 2 over four checkpoints (with a tie), an `_embedding` write and a
     rollback in between; the two listed ids satisfy the hypothesis -/
 example :
-    let ops : List Op := [.setmax 2, .kput 2 1 1 (some 4), .ckpt 5 [], .ckpt 7 [], .gnode 0, .ckpt 7 [1],
-      .rollback 2, .ckpt 9 []]
-    qCkpts (run {} ops) = [1, 3] ∧ alHas (run {} ops).st.cps 3 = true := by decide
+    let ops : List Op := [.setmax 2, .kput 2 1 1 (some 4), .ckpt 5 [] 1000, .ckpt 7 [] 1001, .gnode 0, .ckpt 7 [1] 1002,
+      .rollback 2 [], .ckpt 9 [] 1003]
+    qCkpts (run {} ops) = [1, 3] ∧ alHas (run {} ops).st.cps 3 = true ∧
+      nameOf (run {} ops) 1 = some 1001 ∧ nameOf (run {} ops) 3 = some 1003 := by decide
+
+/-- `ROLLBACK TO x` (and `CheckpointManager::delete(x)`) act on the NEWEST listed checkpoint whose
+    id or name is `x`: after ANY statement sequence, for EVERY target string and EVERY listing
+    order, the checkpoint loaded is listed, its id or its name is `x`, and no listed checkpoint
+    whose id or name is `x` has a later timestamp -/
+theorem rollback_target_is_newest_match (ops : List Op) (x : Nat) (o : List Nat) (c : Ckpt) :
+    loadCk (run {} ops) o x = some c →
+      alHas (run {} ops).st.cps c.id = true ∧ (c.id = x ∨ c.name = x) ∧
+      ∀ j c', alHas (run {} ops).st.cps j = true → blobOf (run {} ops) j = some c' →
+        (c'.id = x ∨ c'.name = x) → c'.ts ≤ c.ts := by
+  intro hl
+  have hinv : DbInv (run {} ops) := DbInv.init.run ops
+  have hr := (loadCk_mem _ o x c hl).2
+  have hb : blobOf (run {} ops) c.id = some c := by
+    unfold loadCk at hl; rw [hr] at hl; exact hl
+  obtain ⟨ts, hm, hmatch, hnew⟩ := resolve_some _ o x c.id hr
+  have hlive := resolve_live _ o x c.id hr
+  have hts : ts = c.ts := (hinv.cpsTs _ hm c (blobOf_mem _ _ c hb).1 rfl).symm
+  refine ⟨hlive, (ckMatches_iff _ x c.id ts c hb).mp hmatch, ?_⟩
+  intro j c' hj hb' hx
+  have hid := (blobOf_mem _ j c' hb').2
+  have hmem := hinv.live_mem j hj c' hb'
+  have := hnew (j, c'.ts) (mem_ckList o _ hinv.cpsNodup _ hmem)
+    ((ckMatches_iff _ x j c'.ts c' hb').mpr (by rw [← hid]; exact hx))
+  simp only at this
+  omega
+
+/-- non-vacuity and the consequence for duplicate names: two listed checkpoints named alike —
+    the name reaches the newer one only; the older one is still reachable through its id -/
+theorem rollback_name_picks_newest_witness :
+    let d := run {} [.kput 0 0 1 none, .ckpt 5 [] 1007, .kput 0 0 2 none, .ckpt 6 [] 1007, .kput 0 0 3 none]
+    (loadCk d [] 1007).map (·.id) = some 1 ∧ (loadCk d [0, 1] 1007).map (·.id) = some 1 ∧
+    (loadCk d [] 0).map (·.id) = some 0 ∧
+    qRaw (step d (.rollback 1007 [])).1 = [(.plain 0, .raw (some 2) none)] ∧
+    qRaw (step d (.rollback 0 [])).1 = [(.plain 0, .raw (some 1) none)] := by decide
+
+/-- a checkpoint whose NAME is the id string of an older listed checkpoint shadows it:
+    `ROLLBACK TO <id of c0>` is accepted and restores the OTHER checkpoint, so c0 — although
+    retained and listed — cannot be rolled back to (`find_by_id_or_name` takes the first listing
+    entry matching either field; ids are uuids, so this needs a deliberately chosen name) -/
+theorem rollback_id_shadowed_by_name_witness :
+    let d := run {} [.kput 0 0 1 none, .ckpt 5 [] 1000, .kput 0 0 2 none, .ckpt 6 [] 0, .kput 0 0 3 none]
+    qCkpts d = [0, 1] ∧ (loadCk d [] 0).map (·.id) = some 1 ∧
+    (step d (.rollback 0 [])).2 = .ok ∧
+    qRaw (step d (.rollback 0 [])).1 = [(.plain 0, .raw (some 2) none)] := by decide
+
+/-- rollback by id, exact part: `ROLLBACK TO <id>` of the checkpoint taken at `d0` restores it
+    whenever no listed checkpoint is named with that id string — for every `pre`, `post`, order -/
+theorem rollback_by_id_exact_partial (pre post : List Op) (ts : Nat) (ord : List Nat) (nm : Nat)
+    (o : List Nat) (d3 : Db) :
+    let d0 := run {} pre
+    let d2 := run (step d0 (.ckpt ts ord nm)).1 post
+    (∀ j, alHas d2.st.cps j = true → nameOf d2 j ≠ some d0.nextCk) →
+    step d2 (.rollback d0.nextCk o) = (d3, .ok) →
+      d3.st.md = d0.st.md ∧ d3.st.cache = d0.st.cache ∧ d3.st.rel = [] ∧ kvObs d3 = kvObs d0 ∧
+        d3.st.cps = d0.st.cps ∧ WF d3.st := by
+  intro d0 d2 hno hstep
+  obtain ⟨i, hi⟩ := rollback_ok_resolved d2 d0.nextCk o (by rw [hstep])
+  obtain ⟨tsi, hm, hmatch, _⟩ := resolve_some d2 o d0.nextCk i hi
+  have hlive : alHas d2.st.cps i = true := resolve_live d2 o _ i hi
+  have hid : i = d0.nextCk := by
+    unfold ckMatches at hmatch
+    simp only [Bool.or_eq_true, decide_eq_true_eq] at hmatch
+    rcases hmatch with h | h
+    · exact h
+    · exact absurd h (hno i hlive)
+  rw [hid] at hi
+  exact rollback_exact_partial pre post ts ord nm d0.nextCk o d3 hi hstep
+
+/-- rollback by name, exact part: `ROLLBACK TO <name>` restores the checkpoint taken at `d0` under
+    that name whenever it is still listed and every other listed checkpoint whose id or name is
+    that string is strictly older — whatever the listing order -/
+theorem rollback_by_name_exact_partial (pre post : List Op) (ts : Nat) (ord : List Nat) (nm : Nat)
+    (o : List Nat) (d3 : Db) :
+    let d0 := run {} pre
+    let d2 := run (step d0 (.ckpt ts ord nm)).1 post
+    alHas d2.st.cps d0.nextCk = true →
+    (∀ j c', alHas d2.st.cps j = true → blobOf d2 j = some c' → j ≠ d0.nextCk →
+      (j = nm ∨ c'.name = nm) → c'.ts < ts) →
+    step d2 (.rollback nm o) = (d3, .ok) →
+      d3.st.md = d0.st.md ∧ d3.st.cache = d0.st.cache ∧ d3.st.rel = [] ∧ kvObs d3 = kvObs d0 ∧
+        d3.st.cps = d0.st.cps ∧ WF d3.st := by
+  intro d0 d2 hlive hnew hstep
+  have hinv0 : DbInv d0 := DbInv.init.run pre
+  have hinv2 : DbInv d2 := (hinv0.step _).run post
+  have hb := blob_after d0 hinv0 ts ord nm post
+  have hmem := hinv2.live_mem d0.nextCk hlive _ hb
+  have hr : resolve d2 o nm = some d0.nextCk := by
+    apply resolve_eq_of_newest d2 o nm d0.nextCk ts hinv2.cpsNodup hmem
+    · exact (ckMatches_iff d2 nm d0.nextCk ts _ hb).mpr (Or.inr rfl)
+    · intro b hbm hmatch hne
+      have hbl : alHas d2.st.cps b.1 = true := (alHas_iff _ _).mpr (List.mem_map_of_mem hbm)
+      obtain ⟨c', hc', hci⟩ := hinv2.blobOf_some b.1 (hinv2.cpsLt b.1 hbl)
+      have hts := hinv2.cpsTs b hbm c' (blobOf_mem d2 b.1 c' hc').1 hci
+      have := hnew b.1 c' hbl hc' hne ((ckMatches_iff d2 nm b.1 b.2 c' hc').mp hmatch)
+      omega
+  exact rollback_exact_partial pre post ts ord nm nm o d3 hr hstep
+
+example :
+    let pre : List Op := [.kput 0 0 1 none, .ckpt 5 [] 1007, .gnode 1]
+    let post : List Op := [.gdeln 1, .ckpt 9 [] 1001]
+    let d0 := run {} pre
+    let d2 := run (step d0 (.ckpt 8 [] 1007)).1 post
+    d0.nextCk = 1 ∧ alHas d2.st.cps 1 = true ∧ (step d2 (.rollback 1007 [])).2 = .ok ∧
+    (step d2 (.rollback 1 [])).2 = .ok ∧ qCkpts d2 = [0, 1, 2] := by decide
+
+/-- `CheckpointManager::delete(x)`: when accepted it unlists exactly the checkpoint `x` resolves to
+    (the newest listed one whose id or name is `x`); the database content, every other listed
+    checkpoint and the archive are untouched — so by `retained_are_restorable` (whose statement
+    sequences include deletes) every checkpoint still listed can still be rolled back to -/
+theorem ckdel_removes_exactly_the_target (ops : List Op) (x : Nat) (o : List Nat) (d' : Db) :
+    step (run {} ops) (.ckdel x o) = (d', .ok) →
+      ∃ i, resolve (run {} ops) o x = some i ∧ alHas (run {} ops).st.cps i = true ∧
+        alHas d'.st.cps i = false ∧
+        (∀ j, j ≠ i → alHas d'.st.cps j = alHas (run {} ops).st.cps j) ∧
+        d'.st.md = (run {} ops).st.md ∧ d'.st.cache = (run {} ops).st.cache ∧
+        d'.st.rel = (run {} ops).st.rel ∧ d'.eng = (run {} ops).eng ∧ d'.arch = (run {} ops).arch := by
+  intro hstep
+  simp only [step, doCkDel] at hstep
+  cases hr : resolve (run {} ops) o x with
+  | none => rw [hr] at hstep; exact absurd (congrArg Prod.snd hstep) (by simp)
+  | some i =>
+    rw [hr] at hstep
+    have hd := (congrArg Prod.fst hstep).symm
+    simp only at hd
+    subst hd
+    refine ⟨i, rfl, resolve_live _ o x i hr, ?_, ?_, rfl, rfl, rfl, rfl, rfl⟩
+    · show alHas (alDel (run {} ops).st.cps i) i = false
+      cases h : alHas (alDel (run {} ops).st.cps i) i with
+      | false => rfl
+      | true => exact absurd rfl ((alHas_alDel _ _ _).mp h).1
+    · intro j hj
+      show alHas (alDel (run {} ops).st.cps i) j = alHas (run {} ops).st.cps j
+      cases h : alHas (run {} ops).st.cps j with
+      | true => exact (alHas_alDel _ _ _).mpr ⟨fun e => hj e.symm, h⟩
+      | false =>
+        cases h' : alHas (alDel (run {} ops).st.cps i) j with
+        | false => rfl
+        | true => rw [((alHas_alDel _ _ _).mp h').2] at h; cases h
+
+example :
+    let ops : List Op := [.ckpt 5 [] 1007, .gnode 1, .ckpt 6 [] 1007, .ckpt 7 [] 1001]
+    (step (run {} ops) (.ckdel 1007 [])).2 = .ok ∧ qCkpts (step (run {} ops) (.ckdel 1007 [])).1 = [0, 2] ∧
+    (step (run {} ops) (.ckdel 1 [])).2 = .ok ∧ (step (run {} ops) (.ckdel 9 [])).2 = .err .notFound := by
+  decide
+
+/-- `CheckpointManager::list(Some n)` / `CHECKPOINTS LIMIT n`: for every database, order and limit
+    the answer has `min n (listed)` entries, all listed, newest first, and nothing left out is
+    newer than anything shown -/
+theorem list_limit_newest (ops : List Op) (o : List Nat) (n : Nat) :
+    let d := run {} ops
+    (qCkptsTop d o n).length = min n d.st.cps.length ∧
+    (∀ p ∈ qCkptsTop d o n, p ∈ d.st.cps) ∧ DescSorted (qCkptsTop d o n) ∧
+    ∀ p ∈ d.st.cps, p ∉ qCkptsTop d o n → ∀ k ∈ qCkptsTop d o n, p.2 ≤ k.2 := by
+  intro d
+  have hinv : DbInv d := DbInv.init.run ops
+  have hperm : (ckList o d.st.cps).Perm d.st.cps := ckList_perm o d.st.cps hinv.cpsNodup
+  have hs := sortDesc_sorted (arrange o d.st.cps)
+  refine ⟨?_, ?_, ?_, ?_⟩
+  · unfold qCkptsTop; rw [List.length_take, hperm.length_eq]
+  · intro p hp; exact ckList_mem o _ p (List.mem_of_mem_take hp)
+  · unfold qCkptsTop DescSorted ckList
+    exact List.Pairwise.sublist (List.take_sublist _ _) hs
+  · intro p hp hnot k hk
+    have hin : p ∈ ckList o d.st.cps := hperm.mem_iff.mpr hp
+    unfold qCkptsTop at hnot hk
+    rw [← List.take_append_drop n (ckList o d.st.cps)] at hin
+    rcases List.mem_append.mp hin with hin | hin
+    · exact absurd hin hnot
+    · unfold DescSorted at hs
+      unfold ckList at hin hk
+      rw [← List.take_append_drop n (sortDesc (arrange o d.st.cps)), List.pairwise_append] at hs
+      exact hs.2.2 k hk p hin
+
+example :
+    let d := run {} [.ckpt 5 [] 1000, .ckpt 7 [] 1001, .ckpt 6 [] 1002, .ckpt 7 [] 1003]
+    qCkptsTop d [] 2 = [(1, 7), (3, 7)] ∧ qCkptsTop d [3] 3 = [(3, 7), (1, 7), (2, 6)] := by decide
 
 end Neumann.Ckpt.Props
